@@ -10,10 +10,10 @@ Model of the action-combination code of the lunar engine.  Core Lean only.
                                           ↦ `foldReq` / `foldResp` (left fold from a fresh NoOp)
 
 Go `map[string]string` ↦ association list `Hdrs` read through `List.lookup` (first binding wins;
-the driver only ever builds lists with distinct keys).  Go pointers to action structs matter in one
-place only (`ModifyRequestAction.ReqPrioritize` assigns to its receiver's `HeadersToSet`): the
-object-level model `reqStepH` below keeps a store of named action objects and an accumulator that
-is either a reference into the store or a fresh value.
+the driver only ever builds lists with distinct keys).  The object-level model `reqStepH` below
+keeps a store of named action objects and an accumulator that is either a reference into the
+store (the table returns `other` / its receiver) or a fresh value; since the repair of F07b no cell
+of the table writes to an object it was given.
 -/
 namespace LunarVerif.C07
 
@@ -57,7 +57,7 @@ def reqPrio : ReqAct → ReqAct → ReqAct
     match o with
     | .early s b2 h2 => .early s b2 h2
     | .noop => .modReq h host path q b
-    | .modHdr h2 => .modReq (merge h h2) host path q b           -- in place: action.HeadersToSet = merged
+    | .modHdr h2 => .modReq (merge h h2) host path q b           -- a fresh struct (F07b repaired)
     | .modReq h2 host2 path2 q2 b2 => .modReq (merge h h2) host2 path2 q2 b2
     | .genReq h2 rm b2 => .genReq (merge h h2) rm b2
   | .genReq h rm b, o =>                                         -- GenerateRequestAction.ReqPrioritize
@@ -94,8 +94,23 @@ def dumpChars : List (List Char × List Char) → List Char
   | [] => ['\n']
   | p :: ps => (p :: ps).flatMap fun kv => kv.1 ++ ':' :: kv.2 ++ ['\n']
 
+/-- `isHeaderToken` on one byte: RFC 7230 `tchar` (non-ASCII characters are not). -/
+def isTchar (c : Char) : Bool :=
+  c.isAlphanum || "!#$%&'*+-.^_`|~".toList.contains c
+
+/-- `utils.isHeaderToken`. -/
+def validName (k : String) : Bool := k.toList != [] && k.toList.all isTchar
+
+/-- `headerValueLineBreaks.Replace`: CR and LF removed. -/
+def stripCRLF (v : String) : String :=
+  String.ofList (v.toList.filter fun c => c != '\r' && c != '\n')
+
+/-- What `DumpHeaders` keeps: entries whose name is a token, values without line breaks. -/
+def sanitizeHdrs (h : Hdrs) : Hdrs :=
+  (h.filter fun kv => validName kv.1).map fun kv => (kv.1, stripCRLF kv.2)
+
 def dumpHeaders (h : Hdrs) : String :=
-  String.ofList (dumpChars (h.map fun kv => (kv.1.toList, kv.2.toList)))
+  String.ofList (dumpChars ((sanitizeHdrs h).map fun kv => (kv.1.toList, kv.2.toList)))
 
 inductive Scope where
   | txn | req | res          -- action.ScopeTransaction / ScopeRequest / ScopeResponse
@@ -177,28 +192,24 @@ def Acc.get (s : Store) : Acc → Option ReqAct
   | .val a => some a
   | .ref n => (s.lookup n).bind Obj.asReq
 
-/-- One iteration `prioritizedAction = prioritizedAction.ReqPrioritize(obj[n])` on objects.
-    Returns `none` when `n` does not name a request action. -/
-def reqStepH (s : Store) (acc : Acc) (n : String) : Option (Store × Acc) :=
+/-- One iteration `prioritizedAction = prioritizedAction.ReqPrioritize(obj[n])` on objects: which
+    pointer comes back.  No object is written to.  `none` when `n` does not name a request action. -/
+def reqStepH (s : Store) (acc : Acc) (n : String) : Option Acc :=
   match acc.get s, (s.lookup n).bind Obj.asReq with
   | some a, some o =>
     match a, o with
-    | .noop, _ => some (s, .ref n)                         -- returns `other`
-    | .early .., _ => some (s, acc)                        -- returns the receiver
-    | _, .early .. => some (s, .ref n)                     -- returns `other`
-    | _, .noop => some (s, acc)                            -- returns the receiver
-    | .modReq h host path q b, .modHdr h2 =>               -- mutates the receiver, returns it
-      match acc with
-      | .ref i => some (s.set i (.req (.modReq (merge h h2) host path q b)), .ref i)
-      | .val _ => some (s, .val (.modReq (merge h h2) host path q b))
-    | a, o => some (s, .val (reqPrio a o))                 -- a fresh struct
+    | .noop, _ => some (.ref n)                            -- returns `other`
+    | .early .., _ => some acc                             -- returns the receiver
+    | _, .early .. => some (.ref n)                        -- returns `other`
+    | _, .noop => some acc                                 -- returns the receiver
+    | a, o => some (.val (reqPrio a o))                    -- a fresh struct
   | _, _ => none
 
 /-- Fold over object names, from a fresh `&NoOpAction{}`. -/
-def foldReqH (s : Store) (acc : Acc) : List String → Option (Store × Acc)
-  | [] => some (s, acc)
+def foldReqH (s : Store) (acc : Acc) : List String → Option Acc
+  | [] => some acc
   | n :: ns => match reqStepH s acc n with
-    | some (s', acc') => foldReqH s' acc' ns
+    | some acc' => foldReqH s acc' ns
     | none => none
 
 end LunarVerif.C07
